@@ -152,3 +152,356 @@ fn u02_5_header_layout_v1() {
 fn u02_5_header_layout_v2() {
     header_layout(true);
 }
+
+// ------------------------------------------------------------------------------------ U01.5 write_file: the stored form of one file
+// Whole function, real code.  `compress` is replaced by a deterministic instance of its (Verus-proved, U03.codecs)
+// contract: the result is the input itself or the method byte followed by strictly fewer bytes than the input.  The
+// harness then reads the emitted bytes back the way the published format prescribes: offset table of sector_count + 1
+// little-endian words enciphered with key - 1, first entry = bytes before the first sector, consecutive differences =
+// stored sector sizes, sector i enciphered with key + i, key = published formula over the ORIGINAL size and position.
+pub fn stub_compress(data: &[u8], method: u8) -> crate::Result<Vec<u8>> {
+    if data.len() >= 2 && data[0] & 1 == 1 {
+        let mut v = Vec::with_capacity(data.len() - 1);
+        v.push(method);
+        let mut i = 1;
+        while i + 1 < data.len() {
+            v.push(data[i] ^ 0x5A);
+            i += 1;
+        }
+        Ok(v)
+    } else {
+        Ok(data.to_vec())
+    }
+}
+
+fn stored_len(sector: &[u8], compression: u8) -> usize {
+    if compression != 0 && sector.len() >= 2 && sector[0] & 1 == 1 { sector.len() - 1 } else { sector.len() }
+}
+
+fn stored_byte(sector: &[u8], compression: u8, j: usize) -> u8 {
+    if compression != 0 && sector.len() >= 2 && sector[0] & 1 == 1 {
+        if j == 0 { compression } else { sector[j] ^ 0x5A }
+    } else {
+        sector[j]
+    }
+}
+
+/// external crate adler2 is not under contract: the checksum is an uninterpreted-style stand-in (position-weighted sum),
+/// the harness only decides WHICH bytes are checksummed and WHERE the word is stored
+pub fn stub_adler(data: &[u8]) -> u32 {
+    let mut a: u32 = 1;
+    let mut i = 0;
+    while i < data.len() {
+        a = a.wrapping_mul(31).wrapping_add(data[i] as u32 + 1);
+        i += 1;
+    }
+    a
+}
+
+fn write_file_layout(len: usize, sector_size: usize, crcs: bool, encrypt: bool, compression: u8, use_fix_key: bool, file_pos: u64) {
+    let b = ArchiveBuilder::new().generate_crcs(crcs);
+    let name = "b";
+    let data_full: [u8; 4] = kani::any();
+    let data = &data_full[..len];
+    let params = FileWriteParams { file_data: data, archive_name: name, compression, encrypt, use_fix_key, sector_size, file_pos };
+    let mut buf = [0xAAu8; 40];
+    let (size, flags, written) = {
+        let mut c = std::io::Cursor::new(&mut buf[..]);
+        match b.write_file(&mut c, &params) {
+            Ok((s, f)) => (s, f, c.position() as usize),
+            Err(e) => { core::mem::forget(e); assert!(false, "writing to a large enough sink succeeds"); return; }
+        }
+    };
+    // flag word
+    assert!((flags & BlockEntry::FLAG_ENCRYPTED != 0) == encrypt, "ENCRYPTED iff requested");
+    assert!((flags & BlockEntry::FLAG_FIX_KEY != 0) == (encrypt && use_fix_key), "FIX_KEY iff requested with encryption");
+    assert!((flags & BlockEntry::FLAG_SECTOR_CRC != 0) == crcs, "SECTOR_CRC iff checksums are generated");
+    assert!((flags & BlockEntry::FLAG_SINGLE_UNIT != 0) == (len <= sector_size), "SINGLE_UNIT iff the file fits one sector");
+    let base = hash_string(name, hash_type::FILE_KEY);
+    let key = if encrypt && use_fix_key { base.wrapping_add(file_pos as u32) ^ (len as u32) } else { base };
+    if len <= sector_size {
+        let sl = if len == 0 { 0 } else { stored_len(data, compression) };
+        assert!(size == sl, "reported stored size = stored bytes (checksum not counted)");
+        assert!(written == sl + if crcs { 4 } else { 0 }, "bytes written = stored bytes + optional checksum word");
+        assert!((flags & BlockEntry::FLAG_COMPRESS != 0) == (sl != len), "COMPRESS iff the stored form is the compressed one");
+        let mut plain = [0u8; 4];
+        plain[..sl].copy_from_slice(&buf[..sl]);
+        if encrypt { crate::archive::decrypt_file_data(&mut plain[..sl], key); }
+        let j: usize = kani::any();
+        kani::assume(j < sl);
+        assert!(plain[j] == stored_byte(data, compression, j), "deciphering with the published key yields the stored form");
+        if crcs {
+            let c = u32::from_le_bytes([buf[sl], buf[sl + 1], buf[sl + 2], buf[sl + 3]]);
+            assert!(c == adler2::adler32_slice(data), "checksum word = ADLER32 of the original bytes");
+        }
+    } else {
+        let n = (len + sector_size - 1) / sector_size;
+        let table = (n + 1) * 4;
+        let crc_bytes = if crcs { n * 4 } else { 0 };
+        // stored sector lengths
+        let mut sl = [0usize; 3];
+        let mut any_compressed = false;
+        let mut i = 0;
+        while i < n {
+            let s = &data[i * sector_size..core::cmp::min((i + 1) * sector_size, len)];
+            sl[i] = stored_len(s, compression);
+            if sl[i] != s.len() { any_compressed = true; }
+            i += 1;
+        }
+        let total: usize = sl[0] + sl[1] + sl[2];
+        assert!((flags & BlockEntry::FLAG_COMPRESS != 0) == any_compressed, "COMPRESS iff some sector is stored compressed");
+        assert!(size == table + total, "reported stored size = offset table + sector bytes (checksum table not counted)");
+        assert!(written == table + crc_bytes + total, "bytes written = offset table + checksum table + sector bytes");
+        // offset table
+        let mut offs = [0u32; 4];
+        let mut k = 0;
+        while k <= n {
+            offs[k] = u32::from_le_bytes([buf[4 * k], buf[4 * k + 1], buf[4 * k + 2], buf[4 * k + 3]]);
+            k += 1;
+        }
+        if encrypt { crate::crypto::decrypt_block(&mut offs[..n + 1], key.wrapping_sub(1)); }
+        assert!(offs[0] as usize == table + crc_bytes, "first offset = bytes in front of the first sector");
+        let mut acc = table + crc_bytes;
+        let mut i = 0;
+        while i < n {
+            assert!(offs[i] as usize == acc, "offset i = start of sector i relative to the file position");
+            let s = &data[i * sector_size..core::cmp::min((i + 1) * sector_size, len)];
+            let mut plain = [0u8; 4];
+            plain[..sl[i]].copy_from_slice(&buf[acc..acc + sl[i]]);
+            if encrypt { crate::archive::decrypt_file_data(&mut plain[..sl[i]], key.wrapping_add(i as u32)); }
+            let j: usize = kani::any();
+            kani::assume(j < sl[i]);
+            assert!(plain[j] == stored_byte(s, compression, j), "sector i deciphered with key + i yields its stored form");
+            if crcs {
+                let o = table + 4 * i;
+                let c = u32::from_le_bytes([buf[o], buf[o + 1], buf[o + 2], buf[o + 3]]);
+                assert!(c == adler2::adler32_slice(s), "checksum i = ADLER32 of the original sector bytes");
+            }
+            acc += sl[i];
+            i += 1;
+        }
+        assert!(offs[n] as usize == acc, "last offset = end of the stored data");
+    }
+    core::mem::forget(b);
+}
+
+// @harness unit=U01.5 props=C01,C02 kind=bounded bound="0-byte file in one 2-byte sector, checksums off, not encrypted, every compression selector, FIX_KEY request and position; every byte value; compress = assumed contract instance, adler32 = stand-in" timeout=600 target="builder.rs: write_file (whole function): flags, stored size, offset table, per-sector keys, checksum placement" oracle=build_lookup
+#[kani::proof]
+#[kani::unwind(5)]
+#[kani::stub(alloc::fmt::format, stub_format)]
+#[kani::stub(crate::compression::compress::compress, stub_compress)]
+#[kani::stub(adler2::adler32_slice, stub_adler)]
+fn u01_5_write_file_single_l0_nocrc_plain() {
+    write_file_layout(0, 2, false, false, kani::any(), kani::any(), kani::any());
+}
+
+// @harness unit=U01.5 props=C01,C02 kind=bounded bound="0-byte file in one 2-byte sector, checksums on, not encrypted, every compression selector, FIX_KEY request and position; every byte value; compress = assumed contract instance, adler32 = stand-in" timeout=600 target="builder.rs: write_file (whole function): flags, stored size, offset table, per-sector keys, checksum placement" oracle=build_lookup
+#[kani::proof]
+#[kani::unwind(5)]
+#[kani::stub(alloc::fmt::format, stub_format)]
+#[kani::stub(crate::compression::compress::compress, stub_compress)]
+#[kani::stub(adler2::adler32_slice, stub_adler)]
+fn u01_5_write_file_single_l0_crc_plain() {
+    write_file_layout(0, 2, true, false, kani::any(), kani::any(), kani::any());
+}
+
+// @harness unit=U01.5 props=C01,C02 kind=bounded bound="1-byte file in one 2-byte sector, checksums off, not encrypted, every compression selector, FIX_KEY request and position; every byte value; compress = assumed contract instance, adler32 = stand-in" timeout=600 target="builder.rs: write_file (whole function): flags, stored size, offset table, per-sector keys, checksum placement" oracle=build_lookup
+#[kani::proof]
+#[kani::unwind(5)]
+#[kani::stub(alloc::fmt::format, stub_format)]
+#[kani::stub(crate::compression::compress::compress, stub_compress)]
+#[kani::stub(adler2::adler32_slice, stub_adler)]
+fn u01_5_write_file_single_l1_nocrc_plain() {
+    write_file_layout(1, 2, false, false, kani::any(), kani::any(), kani::any());
+}
+
+// @harness unit=U01.5 props=C01,C02 kind=bounded bound="1-byte file in one 2-byte sector, checksums on, not encrypted, every compression selector, FIX_KEY request and position; every byte value; compress = assumed contract instance, adler32 = stand-in" timeout=600 target="builder.rs: write_file (whole function): flags, stored size, offset table, per-sector keys, checksum placement" oracle=build_lookup
+#[kani::proof]
+#[kani::unwind(5)]
+#[kani::stub(alloc::fmt::format, stub_format)]
+#[kani::stub(crate::compression::compress::compress, stub_compress)]
+#[kani::stub(adler2::adler32_slice, stub_adler)]
+fn u01_5_write_file_single_l1_crc_plain() {
+    write_file_layout(1, 2, true, false, kani::any(), kani::any(), kani::any());
+}
+
+// @harness unit=U01.5 props=C01,C02 kind=bounded bound="1-byte file in one 2-byte sector, encrypted with the plain name key, stored (selector 0), checksums on and off, every position; every byte value; compress = assumed contract instance, adler32 = stand-in" timeout=900 target="builder.rs: write_file (whole function): flags, stored size, offset table, per-sector keys, checksum placement" oracle=build_lookup
+#[kani::proof]
+#[kani::unwind(5)]
+#[kani::stub(alloc::fmt::format, stub_format)]
+#[kani::stub(crate::compression::compress::compress, stub_compress)]
+#[kani::stub(adler2::adler32_slice, stub_adler)]
+fn u01_5_write_file_single_l1_encrypted() {
+    write_file_layout(1, 2, kani::any(), true, 0, false, kani::any());
+}
+
+// @harness unit=U01.5 props=C01,C02 kind=bounded bound="1-byte file in one 2-byte sector, encrypted with the position-adjusted key at position 0x0123456789AB (the formula for every position is u01_4), stored, checksums on and off; every byte value; compress = assumed contract instance, adler32 = stand-in" timeout=900 target="builder.rs: write_file (whole function): flags, stored size, offset table, per-sector keys, checksum placement" oracle=build_lookup
+#[kani::proof]
+#[kani::unwind(5)]
+#[kani::stub(alloc::fmt::format, stub_format)]
+#[kani::stub(crate::compression::compress::compress, stub_compress)]
+#[kani::stub(adler2::adler32_slice, stub_adler)]
+fn u01_5_write_file_single_l1_encrypted_fixkey() {
+    write_file_layout(1, 2, kani::any(), true, 0, true, 0x0123_4567_89AB);
+}
+
+// @harness unit=U01.5 props=C01,C02 kind=bounded bound="2-byte file in one 2-byte sector, checksums off, not encrypted, every compression selector, FIX_KEY request and position; every byte value; compress = assumed contract instance, adler32 = stand-in" timeout=600 target="builder.rs: write_file (whole function): flags, stored size, offset table, per-sector keys, checksum placement" oracle=build_lookup
+#[kani::proof]
+#[kani::unwind(5)]
+#[kani::stub(alloc::fmt::format, stub_format)]
+#[kani::stub(crate::compression::compress::compress, stub_compress)]
+#[kani::stub(adler2::adler32_slice, stub_adler)]
+fn u01_5_write_file_single_l2_nocrc_plain() {
+    write_file_layout(2, 2, false, false, kani::any(), kani::any(), kani::any());
+}
+
+// @harness unit=U01.5 props=C01,C02 kind=bounded bound="2-byte file in one 2-byte sector, checksums on, not encrypted, every compression selector, FIX_KEY request and position; every byte value; compress = assumed contract instance, adler32 = stand-in" timeout=600 target="builder.rs: write_file (whole function): flags, stored size, offset table, per-sector keys, checksum placement" oracle=build_lookup
+#[kani::proof]
+#[kani::unwind(5)]
+#[kani::stub(alloc::fmt::format, stub_format)]
+#[kani::stub(crate::compression::compress::compress, stub_compress)]
+#[kani::stub(adler2::adler32_slice, stub_adler)]
+fn u01_5_write_file_single_l2_crc_plain() {
+    write_file_layout(2, 2, true, false, kani::any(), kani::any(), kani::any());
+}
+
+// @harness unit=U01.5 props=C01,C02 kind=bounded bound="2-byte file in one 2-byte sector, encrypted with the plain name key, stored (selector 0), checksums on and off, every position; every byte value; compress = assumed contract instance, adler32 = stand-in" timeout=900 target="builder.rs: write_file (whole function): flags, stored size, offset table, per-sector keys, checksum placement" oracle=build_lookup
+#[kani::proof]
+#[kani::unwind(5)]
+#[kani::stub(alloc::fmt::format, stub_format)]
+#[kani::stub(crate::compression::compress::compress, stub_compress)]
+#[kani::stub(adler2::adler32_slice, stub_adler)]
+fn u01_5_write_file_single_l2_encrypted() {
+    write_file_layout(2, 2, kani::any(), true, 0, false, kani::any());
+}
+
+// @harness unit=U01.5 props=C01,C02 kind=bounded bound="2-byte file in one 2-byte sector, encrypted with the position-adjusted key at position 0x0123456789AB (the formula for every position is u01_4), stored, checksums on and off; every byte value; compress = assumed contract instance, adler32 = stand-in" timeout=900 target="builder.rs: write_file (whole function): flags, stored size, offset table, per-sector keys, checksum placement" oracle=build_lookup
+#[kani::proof]
+#[kani::unwind(5)]
+#[kani::stub(alloc::fmt::format, stub_format)]
+#[kani::stub(crate::compression::compress::compress, stub_compress)]
+#[kani::stub(adler2::adler32_slice, stub_adler)]
+fn u01_5_write_file_single_l2_encrypted_fixkey() {
+    write_file_layout(2, 2, kani::any(), true, 0, true, 0x0123_4567_89AB);
+}
+
+// @harness unit=U01.5 props=C01,C02 kind=bounded bound="3-byte file in two 2-byte sectors, checksums off, not encrypted, every compression selector, FIX_KEY request and position; every byte value; compress = assumed contract instance, adler32 = stand-in" timeout=600 target="builder.rs: write_file (whole function): flags, stored size, offset table, per-sector keys, checksum placement" oracle=build_lookup
+#[kani::proof]
+#[kani::unwind(5)]
+#[kani::stub(alloc::fmt::format, stub_format)]
+#[kani::stub(crate::compression::compress::compress, stub_compress)]
+#[kani::stub(adler2::adler32_slice, stub_adler)]
+fn u01_5_write_file_sectored_l3_nocrc_plain() {
+    write_file_layout(3, 2, false, false, kani::any(), kani::any(), kani::any());
+}
+
+// @harness unit=U01.5 props=C01,C02 kind=bounded bound="3-byte file in two 2-byte sectors, checksums on, not encrypted, every compression selector, FIX_KEY request and position; every byte value; compress = assumed contract instance, adler32 = stand-in" timeout=600 target="builder.rs: write_file (whole function): flags, stored size, offset table, per-sector keys, checksum placement" oracle=build_lookup
+#[kani::proof]
+#[kani::unwind(5)]
+#[kani::stub(alloc::fmt::format, stub_format)]
+#[kani::stub(crate::compression::compress::compress, stub_compress)]
+#[kani::stub(adler2::adler32_slice, stub_adler)]
+fn u01_5_write_file_sectored_l3_crc_plain() {
+    write_file_layout(3, 2, true, false, kani::any(), kani::any(), kani::any());
+}
+
+// @harness unit=U01.5 props=C01 kind=bounded bound="4-byte file in two 2-byte sectors, checksums off, not encrypted, every compression selector, FIX_KEY request and position; every byte value; compress = assumed contract instance, adler32 = stand-in" timeout=600 target="builder.rs: write_file (whole function): flags, stored size, offset table, per-sector keys, checksum placement" oracle=build_lookup
+#[kani::proof]
+#[kani::unwind(5)]
+#[kani::stub(alloc::fmt::format, stub_format)]
+#[kani::stub(crate::compression::compress::compress, stub_compress)]
+#[kani::stub(adler2::adler32_slice, stub_adler)]
+fn u01_5_write_file_sectored_l4_nocrc_plain() {
+    write_file_layout(4, 2, false, false, kani::any(), kani::any(), kani::any());
+}
+
+// @harness unit=U01.5 props=C01 kind=bounded bound="4-byte file in two 2-byte sectors, checksums on, not encrypted, every compression selector, FIX_KEY request and position; every byte value; compress = assumed contract instance, adler32 = stand-in" timeout=600 target="builder.rs: write_file (whole function): flags, stored size, offset table, per-sector keys, checksum placement" oracle=build_lookup
+#[kani::proof]
+#[kani::unwind(5)]
+#[kani::stub(alloc::fmt::format, stub_format)]
+#[kani::stub(crate::compression::compress::compress, stub_compress)]
+#[kani::stub(adler2::adler32_slice, stub_adler)]
+fn u01_5_write_file_sectored_l4_crc_plain() {
+    write_file_layout(4, 2, true, false, kani::any(), kani::any(), kani::any());
+}
+
+// @harness unit=U01.5 props=C01,C02 kind=bounded bound="3-byte file in two 2-byte sectors, encrypted with the plain name key, stored (selector 0), checksums off, every position; every byte value; compress = assumed contract instance, adler32 = stand-in" timeout=900 target="builder.rs: write_file (whole function): flags, stored size, offset table, per-sector keys, checksum placement" oracle=build_lookup
+#[kani::proof]
+#[kani::unwind(5)]
+#[kani::stub(alloc::fmt::format, stub_format)]
+#[kani::stub(crate::compression::compress::compress, stub_compress)]
+#[kani::stub(adler2::adler32_slice, stub_adler)]
+fn u01_5_write_file_sectored_l3_nocrc_encrypted() {
+    write_file_layout(3, 2, false, true, 0, false, kani::any());
+}
+
+// @harness unit=U01.5 props=C01,C02 kind=bounded bound="3-byte file in two 2-byte sectors, encrypted with the position-adjusted key at position 0x0123456789AB (the formula for every position is u01_4), stored, checksums off; every byte value; compress = assumed contract instance, adler32 = stand-in" timeout=900 target="builder.rs: write_file (whole function): flags, stored size, offset table, per-sector keys, checksum placement" oracle=build_lookup
+#[kani::proof]
+#[kani::unwind(5)]
+#[kani::stub(alloc::fmt::format, stub_format)]
+#[kani::stub(crate::compression::compress::compress, stub_compress)]
+#[kani::stub(adler2::adler32_slice, stub_adler)]
+fn u01_5_write_file_sectored_l3_nocrc_encrypted_fixkey() {
+    write_file_layout(3, 2, false, true, 0, true, 0x0123_4567_89AB);
+}
+
+// @harness unit=U01.5 props=C01,C02 kind=bounded bound="3-byte file in two 2-byte sectors, encrypted with the plain name key, stored (selector 0), checksums on, every position; every byte value; compress = assumed contract instance, adler32 = stand-in" timeout=900 target="builder.rs: write_file (whole function): flags, stored size, offset table, per-sector keys, checksum placement" oracle=build_lookup
+#[kani::proof]
+#[kani::unwind(5)]
+#[kani::stub(alloc::fmt::format, stub_format)]
+#[kani::stub(crate::compression::compress::compress, stub_compress)]
+#[kani::stub(adler2::adler32_slice, stub_adler)]
+fn u01_5_write_file_sectored_l3_crc_encrypted() {
+    write_file_layout(3, 2, true, true, 0, false, kani::any());
+}
+
+// @harness unit=U01.5 props=C01,C02 kind=bounded bound="3-byte file in two 2-byte sectors, encrypted with the position-adjusted key at position 0x0123456789AB (the formula for every position is u01_4), stored, checksums on; every byte value; compress = assumed contract instance, adler32 = stand-in" timeout=900 target="builder.rs: write_file (whole function): flags, stored size, offset table, per-sector keys, checksum placement" oracle=build_lookup
+#[kani::proof]
+#[kani::unwind(5)]
+#[kani::stub(alloc::fmt::format, stub_format)]
+#[kani::stub(crate::compression::compress::compress, stub_compress)]
+#[kani::stub(adler2::adler32_slice, stub_adler)]
+fn u01_5_write_file_sectored_l3_crc_encrypted_fixkey() {
+    write_file_layout(3, 2, true, true, 0, true, 0x0123_4567_89AB);
+}
+
+// @harness unit=U01.5 props=C01 kind=bounded bound="4-byte file in two 2-byte sectors, encrypted with the plain name key, stored (selector 0), checksums off, every position; every byte value; compress = assumed contract instance, adler32 = stand-in" timeout=900 target="builder.rs: write_file (whole function): flags, stored size, offset table, per-sector keys, checksum placement" oracle=build_lookup
+#[kani::proof]
+#[kani::unwind(5)]
+#[kani::stub(alloc::fmt::format, stub_format)]
+#[kani::stub(crate::compression::compress::compress, stub_compress)]
+#[kani::stub(adler2::adler32_slice, stub_adler)]
+fn u01_5_write_file_sectored_l4_nocrc_encrypted() {
+    write_file_layout(4, 2, false, true, 0, false, kani::any());
+}
+
+// @harness unit=U01.5 props=C01 kind=bounded bound="4-byte file in two 2-byte sectors, encrypted with the position-adjusted key at position 0x0123456789AB (the formula for every position is u01_4), stored, checksums off; every byte value; compress = assumed contract instance, adler32 = stand-in" timeout=900 target="builder.rs: write_file (whole function): flags, stored size, offset table, per-sector keys, checksum placement" oracle=build_lookup
+#[kani::proof]
+#[kani::unwind(5)]
+#[kani::stub(alloc::fmt::format, stub_format)]
+#[kani::stub(crate::compression::compress::compress, stub_compress)]
+#[kani::stub(adler2::adler32_slice, stub_adler)]
+fn u01_5_write_file_sectored_l4_nocrc_encrypted_fixkey() {
+    write_file_layout(4, 2, false, true, 0, true, 0x0123_4567_89AB);
+}
+
+// @harness unit=U01.5 props=C01 kind=bounded bound="4-byte file in two 2-byte sectors, encrypted with the plain name key, stored (selector 0), checksums on, every position; every byte value; compress = assumed contract instance, adler32 = stand-in" timeout=900 target="builder.rs: write_file (whole function): flags, stored size, offset table, per-sector keys, checksum placement" oracle=build_lookup
+#[kani::proof]
+#[kani::unwind(5)]
+#[kani::stub(alloc::fmt::format, stub_format)]
+#[kani::stub(crate::compression::compress::compress, stub_compress)]
+#[kani::stub(adler2::adler32_slice, stub_adler)]
+fn u01_5_write_file_sectored_l4_crc_encrypted() {
+    write_file_layout(4, 2, true, true, 0, false, kani::any());
+}
+
+// @harness unit=U01.5 props=C01 kind=bounded bound="4-byte file in two 2-byte sectors, encrypted with the position-adjusted key at position 0x0123456789AB (the formula for every position is u01_4), stored, checksums on; every byte value; compress = assumed contract instance, adler32 = stand-in" timeout=900 target="builder.rs: write_file (whole function): flags, stored size, offset table, per-sector keys, checksum placement" oracle=build_lookup
+#[kani::proof]
+#[kani::unwind(5)]
+#[kani::stub(alloc::fmt::format, stub_format)]
+#[kani::stub(crate::compression::compress::compress, stub_compress)]
+#[kani::stub(adler2::adler32_slice, stub_adler)]
+fn u01_5_write_file_sectored_l4_crc_encrypted_fixkey() {
+    write_file_layout(4, 2, true, true, 0, true, 0x0123_4567_89AB);
+}
+
